@@ -8,7 +8,8 @@ PROPERTY = 'C17'
 RULE = ('part 1: for every mapped zone and every entry T of pytz\'s UTC transition table of that zone (quick: first 5 + last 14 '
         'per zone; thorough: all), each delta in {-1800,-1,0,+1,+1800} s and microsecond in {0,1,999999}: '
         'dt=(T+delta).astimezone(zone) is written by dump_scalar in ZINC and JSON and read back; the result must denote the '
-        'same instant, have the same UTC offset, map to the same Haystack zone name, and the text must carry that name; a '
+        'same instant, have the same UTC offset, map to the same Haystack zone name, and the text must carry that name and '
+        '- read by the harness\'s own ISO reader - that instant, offset and microsecond; a '
         'sample also goes through a one-cell grid. Map laws: get_tz_map/get_tz_rmap mutually inverse, timezone(name).zone == '
         'map[name], timezone_name(now-in-zone) == name for all names. Hypothesis: instants in years 2..9998 x zones. '
         'part 2: datetime.timezone(offset) for every whole-minute offset in [-14h,+14h] x a catalogue of local times, pytz '
